@@ -89,7 +89,7 @@ TEXTS = {
     "C08": {
         "text": "Lean theorems on the reconstructor for every token list with canonical counters: gap shape (none/one space, or 1-2 breaks "
                 "plus whole indentation units), whole-unit indentation, end-of-file newline, spacing rule values <= 1, and after TokenSpacing no token is preceded by more than one space whatever the original spacing (spacing_at_most_one, via layout invariance). Exact models of the "
-                "rules feeding the counters are differentially checked; a line-scanner oracle checks the real output of every case. no_spaces_at_line_start: for every search the exact model of the wrapper stage (wp/wcn correspondence) leaves no spaces before a token that starts a line. C08_format_full_checked / canonical_counters_after_stage: for the closed model of the whole formatter (search inside) the output is the reconstruction of a state in which every token not kept verbatim has canonical counters (at most two line breaks, no spaces at a line start, no indentation without a line break, at most one space otherwise), whatever the search returned, whenever the decidable premise canonPremisesB holds (at most one space per token before the stage; every token written by a first-phase solution or by the end-of-file rule) - tallied on every case of the full stream (info_c08); it fails exactly on lines without a wrapping solution (F34). Byte level (Proofs/ReconBytes): for every token state satisfying the decidable predicate CanonState (canonical counters, no line break and no leading/trailing blank inside token texts, first token at the start) the five clauses of the property hold of the bytes of reconstruct: output_lines (the output is its lines joined by the line ending, uniquely), no_trailing_blank, at_most_one_space (between two token texts: nothing, one space, or a line break followed by indentation), no_double_blank_line (never three consecutive terminators, none at the start), line_indentation_whole_units, ends_with_one_terminator; segment_clauses for runs between verbatim tokens; C08_bytes_full_checked composes them with the closed model; CanonState is evaluated by the driver on the final token state of every case of the full stream (info_c08b: holds on about 70 %; the rest has multi-line or verbatim tokens, which the property excludes or segment_clauses covers).",
+                "rules feeding the counters are differentially checked; a line-scanner oracle checks the real output of every case. no_spaces_at_line_start: for every search the exact model of the wrapper stage (wp/wcn correspondence) leaves no spaces before a token that starts a line. C08_format_full_checked / C08_format_full_checked2 / canonical_counters_after_stage: for the closed model of the whole formatter (search inside) the output is the reconstruction of a state in which every token not kept verbatim has canonical counters (at most two line breaks, no spaces at a line start, no indentation without a line break, at most one space otherwise), whatever the search returned, whenever the decidable premise canonPremisesB' holds (at most one space per token before the stage - proved except at free positions behind a trailing line comment, C08_pre_stage_spaces, checked there; every token written by a first-phase solution or by the end-of-file rule) - tallied on every case of the full stream (info_c08); it fails exactly on lines without a wrapping solution (F34). Byte level (Proofs/ReconBytes): for every token state satisfying the decidable predicate CanonState (canonical counters, no line break and no leading/trailing blank inside token texts, first token at the start) the five clauses of the property hold of the bytes of reconstruct: output_lines (the output is its lines joined by the line ending, uniquely), no_trailing_blank, at_most_one_space (between two token texts: nothing, one space, or a line break followed by indentation), no_double_blank_line (never three consecutive terminators, none at the start), line_indentation_whole_units, ends_with_one_terminator; segment_clauses for runs between verbatim tokens; C08_bytes_full_checked composes them with the closed model; CanonState is evaluated by the driver on the final token state of every case of the full stream (info_c08b: holds on about 70 %; the rest has multi-line or verbatim tokens, which the property excludes or segment_clauses covers).",
         "design_ref": "DESIGN.md section 5 (C08), 12.2, 12.8",
         "note": "Known findings F5, "
                 "F6, F13, F14, F15 are recorded classes. Trusted: Lean kernel, translator, harness, model.",
